@@ -242,6 +242,21 @@ func main() {
 			{"response-headers", "导入《@响应库》\n输入当前请求\n输出（新建HTTP响应：200、“ok”、【“x-tag” = “first”，“X-Tag” = “second”，“X-TAG” = “third”，“b” = “1”，“B” = “2”，“c” = “3”】）\n", "/r", plain},
 			{"response-default-headers", "导入《@响应库》\n输入当前请求\n令应 = （新建HTTP响应：201、【“k” = 1，“j” = 2，“i” = 3】）\n应之头部#“x-a” = “1”\n应之头部#“X-A” = “2”\n输出应\n", "/r2", plain},
 		}
+		// hostile but possible requests: header values and query values that are not valid UTF-8
+		// (obs-text is legal on the wire), empty, very long, with control characters; several
+		// fields of each kind, so that "the first offending one" is a choice
+		bad := map[string][]string{}
+		for i, k := range []string{"X-Alpha", "X-Beta", "X-Gamma", "X-Delta", "X-Epsilon"} {
+			bad[k] = []string{[]string{"\xff\xfe", "\xc3\x28", "ok", "\xe4\xb8", "caf\xe9"}[i]}
+		}
+		bad["X-Multi"] = []string{"fine", "\x80second"}
+		odd := map[string][]string{"X-Empty": {""}, "X-Empty2": {""}, "X-Long": {strings.Repeat("长", 3000)}, "X-Ctl": {"a\tb"}, "X-Many": {"1", "2", "3", "4"}, "X-Many2": {"4", "3", "2", "1"}}
+		shapes = append(shapes,
+			shape{"header-values-not-utf8", echo, "/p?a=1", bad},
+			shape{"header-values-not-utf8-constant-reply", "输入当前请求\n输出 “好”\n", "/p", bad},
+			shape{"query-values-not-utf8", echo, "/p?a=%ff%fe&b=%c3%28&c=ok&d=%e4%b8&A=%80", plain},
+			shape{"odd-header-values", echo, "/p?x=&y=&z=%00&x=2", odd},
+		)
 		for si, sh := range shapes {
 			entry := filepath.Join(*dir, fmt.Sprintf("entry-h%d.zn", si))
 			os.WriteFile(entry, []byte(sh.src), 0o644)
